@@ -122,8 +122,10 @@ def run_case(ctx, i, rng):
     Q = {"instances": sdn.get_hinstances, "ports": sdn.get_hports, "pins": sdn.get_hpins, "cables": sdn.get_hcables,
          "wires": sdn.get_hwires}
     held = []
-    # A. netlist root
-    for kind, f in Q.items():
+    # A. netlist root (the five enumerations in a random order: whichever runs first creates the references)
+    order = list(Q.items())
+    rng.shuffle(order)
+    for kind, f in order:
         w = collections.Counter(want[kind])
         if kind == "instances":
             w.pop((id(top),), None)
@@ -157,6 +159,19 @@ def run_case(ctx, i, rng):
         if h2 is not h or h3 is not h or hash(h2) != hash(h) or h2 != h:
             ctx.violation("flyweight-broken", "from_sequence gives a different object/hash for the same path (%s)" % type(s[-1]).__name__)
             return
+        # ... and the same for every prefix of the path: the references a returned reference hangs off
+        par, depth_ = h.parent, len(s) - 1
+        while par is not None and depth_ > 0:
+            ctx.count("ancestor_refs_checked")
+            ps = s[:depth_]
+            if seq(par) != ps:
+                ctx.violation("parent-chain-broken", "the parent of a %s reference does not denote the prefix of its path" % type(s[-1]).__name__)
+                return
+            if HRef.from_sequence(list(ps)) is not par:
+                ctx.violation("flyweight-broken:ancestor", "the %s reference at depth %d hangs off a reference that is not THE reference of that path "
+                              "(from_sequence returns another object; first enumeration was get_h%s)" % (type(s[-1]).__name__, depth_, order[0][0]))
+                return
+            par, depth_ = par.parent, depth_ - 1
         li = [x for x in s if isinstance(x, sdn.Instance)][-1]
         u = inst_paths[id(li)] == 1
         if h.is_unique != u:
@@ -371,7 +386,15 @@ def run_case(ctx, i, rng):
                 ctx.count("held_collection_queries")
                 ctx.count("held_collection_stale_roots", stale)
                 try:
-                    e = cmp(ctx, "get_%s(%d held references, %d of them stale)" % (what, len(sub), stale), list(f([h for h, _ in sub])), wantc)
+                    arg = [h for h, _ in sub]
+                    n_arg = len(arg)
+                    first = list(f(arg))
+                    e = cmp(ctx, "get_%s(%d held references, %d of them stale)" % (what, len(sub), stale), first, wantc)
+                    if not e and len(arg) != n_arg:
+                        e = "get_%s(list of roots) changed the caller's list (%d -> %d entries)" % (what, n_arg, len(arg))
+                    if not e:
+                        # the same list object asked again gives the same answer
+                        e = cmp(ctx, "get_%s(the same list of roots, second call)" % what, list(f(arg)), wantc)
                 except Exception as ex:  # noqa: BLE001
                     e = "get_%s(held references) raised %r" % (what, ex)
                 if e:
